@@ -117,5 +117,9 @@ _public_ int m_mod_set_batch_timeout(m_mod_t *mod, uint64_t timeout_ns) {
         }
         return m_mod_src_register_tmr(mod, &mod->batch.timer, M_SRC_INTERNAL | M_SRC_PRIO_HIGH, &mod->batch);
     }
+    if (mod->batch.len == SIZE_MAX) {
+        // Timed batching was the only batching in effect: disable batching altogether
+        mod->batch.len = 0;
+    }
     return 0;
 }
